@@ -413,7 +413,13 @@ def _symmetric_matrix_function_jvp_helper(func, relative_difference, primals, ta
 @jax.custom_jvp
 def sqrt_symm(A):
     """Square root of a symmetric positive semi-definite tensor."""
-    return symmetric_matrix_function(A, Math.safe_sqrt)
+    return symmetric_matrix_function(A, _sqrt_of_psd_eigenvalues)
+
+def _sqrt_of_psd_eigenvalues(lam):
+    # a zero eigenvalue of a singular positive semi-definite tensor is computed as -O(eps):
+    # treat negative values at rounding level as zero (genuinely negative ones still give nan)
+    tol = 1e-14*np.max(np.abs(lam))
+    return Math.safe_sqrt(np.where((lam < 0.0) & (lam >= -tol), 0.0, lam))
 
 def _sqrt_relative_difference(lam1, lam2):
     return 1/(np.sqrt(lam1) + np.sqrt(lam2))
